@@ -111,6 +111,23 @@ def run_miri(ctx, drv, cases, tag="-slab-miri"):
     return ok, bad, leak
 
 
+def lockstep_batches(ctx, binp, drv, cases, tag, first=2000, batch=80000):
+    """lock-step run in batches (a small one first); stops after the first batch with a bad verdict: that is enough
+    to report, and a store that crashes on most scripts would otherwise be restarted once per remaining case"""
+    ok_total, bad_total, i, size = 0, [], 0, first
+    while i < len(cases):
+        f = os.path.join(ctx.workdir, f"cases{tag}.txt")
+        vf.write_cases(f, cases[i:i + size])
+        ok, bad = vf.lockstep(ctx, binp, drv, f, tag=tag)
+        ok_total += ok
+        bad_total += bad
+        i += size
+        size = batch
+        if bad:
+            break
+    return ok_total, bad_total, min(i, len(cases))
+
+
 def run_stage(ctx):
     """Runs the family (reports violations with the check's property id) and returns the statistics for the
     evidence file."""
@@ -121,39 +138,35 @@ def run_stage(ctx):
     corpus = load_corpus()
     cases = corpus + vf.parse_cases(out)
     stats0 = dict(ctx.stats)
-    f = os.path.join(ctx.workdir, "cases-slab.txt")
-    vf.write_cases(f, cases)
-    ok, bad = vf.lockstep(ctx, binp, drv, f, tag="-slab")
+    ok, bad, ran = lockstep_batches(ctx, binp, drv, cases, "-slab")
     slab_stats = {k: ctx.stats[k] - stats0.get(k, 0) for k in ctx.stats if ctx.stats[k] != stats0.get(k, 0)}
     # (the stage's counters are kept apart from those of the DD histories)
-    for k in list(ctx.stats):
-        if k in stats0:
-            ctx.stats[k] = stats0[k]
-        else:
-            del ctx.stats[k]
-    if int(slab_stats.get("op_ADD", 0)) == 0 or int(slab_stats.get("slot_reused", 0)) == 0:
+    ctx.stats.clear()
+    ctx.stats.update(stats0)
+    if not bad and (int(slab_stats.get("op_ADD", 0)) == 0 or int(slab_stats.get("slot_reused", 0)) == 0):
         raise vf.CheckFailure("the arcslab stage replayed no add_item / no slot re-use: harness or generator broken")
+    cov = {
+        "arcslab_stage_cases": len(cases), "arcslab_stage_cases_run": ran, "arcslab_stage_cases_ok": ok, "arcslab_stage_cases_bad": len(bad),
+        "arcslab_stage_stats": {k: int(v) for k, v in sorted(slab_stats.items())},
+        "arcslab_stage_debug_profile_cases": 0,
+        "arcslab_stage_miri": "not run in this tier (thorough tier only)",
+    }
     if bad:
         report(ctx, binp, drv, cases, bad, "release")
+        cov["arcslab_stage_note"] = "stopped after the first batch with a bad verdict (debug profile and miri not run)"
+        return cov
     # debug profile: the corpus + every fifth case
     rng = random.Random(ctx.seed * 2654435761 + 77)
     dcases = [("dbg-" + h, ops) for h, ops in corpus + [c for c in cases[len(corpus):] if rng.random() < 0.2]]
     binp_dbg, _ = build(ctx, debug=True)
-    fd = os.path.join(ctx.workdir, "cases-slab-dbg.txt")
-    vf.write_cases(fd, dcases)
-    stats1 = dict(ctx.stats)
-    okd, badd = vf.lockstep(ctx, binp_dbg, drv, fd, tag="-slab-dbg")
+    okd, badd, rand = lockstep_batches(ctx, binp_dbg, drv, dcases, "-slab-dbg")
     ctx.stats.clear()
-    ctx.stats.update(stats1)
+    ctx.stats.update(stats0)
+    cov.update({"arcslab_stage_debug_profile_cases": rand, "arcslab_stage_debug_profile_cases_ok": okd,
+                "arcslab_stage_debug_profile_cases_bad": len(badd)})
     if badd:
         report(ctx, binp_dbg, drv, dcases, badd, "debug")
-    cov = {
-        "arcslab_stage_cases": len(cases), "arcslab_stage_cases_ok": ok, "arcslab_stage_cases_bad": len(bad),
-        "arcslab_stage_debug_profile_cases": len(dcases), "arcslab_stage_debug_profile_cases_ok": okd,
-        "arcslab_stage_debug_profile_cases_bad": len(badd),
-        "arcslab_stage_stats": {k: int(v) for k, v in sorted(slab_stats.items())},
-        "arcslab_stage_miri": "not run in this tier (thorough tier only)",
-    }
+        return cov
     if ctx.tier == "thorough":
         if not miri_available():
             cov["arcslab_stage_miri"] = "cargo +nightly miri is not available"
@@ -163,6 +176,8 @@ def run_stage(ctx):
             parc = [c for c in cases[len(corpus):] if "PAR 2 3" in c[1]][:3]      # (two threads: miri also looks for data races)
             mcases = [("miri-" + h, ops) for h, ops in corpus + rng.sample(short, min(160, len(short))) + rng.sample(longc, min(6, len(longc))) + parc]
             okm, badm, leak = run_miri(ctx, drv, mcases)
+            ctx.stats.clear()
+            ctx.stats.update(stats0)
             cov["arcslab_stage_miri"] = {"cases": len(mcases), "ok": okm, "bad": len(badm), "leak_report_at_exit": leak}
             if badm:
                 report(ctx, None, drv, mcases, badm, "miri")
